@@ -150,6 +150,15 @@ check_pieces(const char *api, uint16_t tag, uint16_t ref, const uint8_t *file, l
         }
         pos += ext[e].len;
     }
+    /* all blocks reported: together they are the element's stored stream, no more and no less */
+    if (start == 0 && n == next && n > 0 && stored) {
+        long sum = 0;
+        int  anyext = 0;
+        for (int i = 0; i < n; i++)
+            sum += len[i], anyext |= ext[i].external;
+        if (!anyext && sum != slen)
+            viol("datainfo:lengths-do-not-add-up", "%s(%u,%u): the %d reported blocks add up to %ld bytes, the element's stored stream has %ld", api, tag, ref, n, sum, slen);
+    }
 }
 
 typedef int (*info_fn)(void *ctx, unsigned start, unsigned count, int32 *off, int32 *len);
